@@ -1,6 +1,7 @@
 package main
 
 import (
+	"context"
 	"fmt"
 	"go/token"
 	"go/types"
@@ -281,21 +282,40 @@ func (ft *FT) loopCtx(li *loopInfo, st *State, ov map[ssa.Value]Term, pre *State
 	base := ft.specCtx(st, ft.entry)
 	base.pre = pre
 	shadow := ft.shadowHeader(li, ov, st)
-	fnLocal := base.local
-	base.local = func(cc *SpecCtx, name string) (SpecVal, bool, error) {
-		// 1. header phi named after the variable
-		for _, ins := range li.header.Instrs {
-			phi, ok := ins.(*ssa.Phi)
-			if !ok {
-				break
-			}
-			if phi.Comment == name {
-				if t, ok := ov[phi]; ok {
-					return SpecVal{T: t, Typ: phi.Type(), Sort: ft.d.sortOf(phi.Type())}, true, nil
+	base.local = ft.localResolver(li.header, true, shadow, ov, base.local)
+	return base
+}
+
+// localResolver resolves source-level local variables at the entry of block `at` (atHead: `at` is a
+// loop header whose phis are given by ov and whose side-effect-free prefix is in shadow) or at the
+// end of block `at` (atHead false: every value defined in `at` or a dominator is visible).
+func (ft *FT) localResolver(at *ssa.BasicBlock, atHead bool, shadow map[ssa.Value][]Term, ov map[ssa.Value]Term, fallback func(*SpecCtx, string) (SpecVal, bool, error)) func(*SpecCtx, string) (SpecVal, bool, error) {
+	return func(cc *SpecCtx, name string) (SpecVal, bool, error) {
+		if atHead && name == "rangeidx" {
+			// the index of a `for _, x := range s` loop: the rangeindex phi + 1
+			for _, ins := range at.Instrs {
+				if b, ok := ins.(*ssa.BinOp); ok && b.Op == token.ADD {
+					if phi, ok := b.X.(*ssa.Phi); ok && phi.Comment == "rangeindex" {
+						if ts, ok := shadow[b]; ok && len(ts) == 1 {
+							return SpecVal{T: ts[0], Typ: b.Type(), Sort: "Int"}, true, nil
+						}
+					}
 				}
 			}
 		}
-		// 2. debug refs
+		if atHead {
+			for _, ins := range at.Instrs {
+				phi, ok := ins.(*ssa.Phi)
+				if !ok {
+					break
+				}
+				if phi.Comment == name {
+					if t, ok := ov[phi]; ok {
+						return SpecVal{T: t, Typ: phi.Type(), Sort: ft.d.sortOf(phi.Type())}, true, nil
+					}
+				}
+			}
+		}
 		type cand struct {
 			v      ssa.Value
 			isAddr bool
@@ -306,9 +326,15 @@ func (ft *FT) loopCtx(li *loopInfo, st *State, ov map[ssa.Value]Term, pre *State
 		var best *cand
 		consider := func(c cand) {
 			if best == nil || c.depth > best.depth || (c.depth == best.depth && c.idx > best.idx) {
-				cc := c
-				best = &cc
+				cp := c
+				best = &cp
 			}
+		}
+		visible := func(db *ssa.BasicBlock) bool {
+			if db == at {
+				return true
+			}
+			return db.Dominates(at)
 		}
 		for _, b := range ft.fn.Blocks {
 			for _, ins := range b.Instrs {
@@ -332,22 +358,22 @@ func (ft *FT) loopCtx(li *loopInfo, st *State, ov map[ssa.Value]Term, pre *State
 					default:
 						continue
 					}
-					if x.IsAddr {
-						// the cell exists from its allocation on; reads go through the state
-						if db == li.header || db.Dominates(li.header) {
-							consider(cand{v: x.X, isAddr: true, depth: domDepth(db), idx: idx})
-						}
+					if !visible(db) {
 						continue
 					}
-					if db == li.header {
+					if x.IsAddr {
+						consider(cand{v: x.X, isAddr: true, depth: domDepth(db), idx: idx})
+						continue
+					}
+					if db == at && atHead {
 						if _, ok := shadow[x.X]; ok {
 							consider(cand{v: x.X, depth: domDepth(db), idx: idx, inHead: true})
 						}
-					} else if db.Dominates(li.header) {
-						consider(cand{v: x.X, depth: domDepth(db), idx: idx})
+						continue
 					}
+					consider(cand{v: x.X, depth: domDepth(db), idx: idx})
 				case *ssa.Phi:
-					if x.Comment == name && b != li.header && b.Dominates(li.header) {
+					if x.Comment == name && visible(b) && !(b == at && atHead) {
 						consider(cand{v: x, depth: domDepth(b), idx: 0})
 					}
 				}
@@ -376,9 +402,11 @@ func (ft *FT) loopCtx(li *loopInfo, st *State, ov map[ssa.Value]Term, pre *State
 				return SpecVal{T: ft.val(best.v), Typ: best.v.Type(), Sort: ft.d.sortOf(best.v.Type())}, true, nil
 			}
 		}
-		return fnLocal(cc, name)
+		if fallback != nil {
+			return fallback(cc, name)
+		}
+		return SpecVal{}, false, nil
 	}
-	return base
 }
 
 // exitObligations: postconditions and frame at a return.
@@ -387,6 +415,9 @@ func (ft *FT) exitObligations(pos token.Pos, st *State, guard Term, results []Te
 		return
 	}
 	ctx := ft.specCtx(st, ft.entry)
+	if ft.curBlk != nil {
+		ctx.local = ft.localResolver(ft.curBlk, false, nil, nil, ctx.local)
+	}
 	sig := ft.fn.Signature
 	for i := 0; i < sig.Results().Len() && i < len(results); i++ {
 		rt := sig.Results().At(i).Type()
@@ -409,6 +440,9 @@ func (ft *FT) exitObligations(pos token.Pos, st *State, guard Term, results []Te
 	if isPanic {
 		clauses = ft.con.EnsuresP
 		kind = "post-on-panic"
+	}
+	if !isPanic {
+		clauses = append(append([]*Clause{}, clauses...), ft.con.Checks...)
 	}
 	for _, e := range clauses {
 		t, err := ctx.boolExpr(e.Expr)
@@ -537,6 +571,9 @@ func (e *Engine) verifyFunc(key string, sem chan struct{}) *FuncResult {
 	ft := e.newFT(fn, con)
 	ft.run()
 	fr.Errors = append(fr.Errors, ft.errs...)
+	if con != nil && con.Functional {
+		fr.Errors = append(fr.Errors, e.checkFunctional(fn)...)
+	}
 	for n := range ft.notes {
 		fr.Notes = append(fr.Notes, n)
 	}
@@ -582,7 +619,15 @@ func (e *Engine) verifyFunc(key string, sem chan struct{}) *FuncResult {
 			defer wg.Done()
 			sem <- struct{}{}
 			defer func() { <-sem }()
-			r := solve(e.workdir, fmt.Sprintf("%s.%d", key, i), query, e.timeout, !o.Cover)
+			var r SolveResult
+			if o.Cover {
+				// vacuity cover: only an `unsat` answer matters; a quick single-solver attempt suffices
+				f := filepath.Join(e.workdir, sanitizeFile(fmt.Sprintf("%s.%d", key, i))+".smt2")
+				_ = os.WriteFile(f, []byte(query+"(check-sat)\n"), 0o644)
+				r = runSolver(context.Background(), "z3-new", "z3-new", f, 2*time.Second, false)
+			} else {
+				r = solve(e.workdir, fmt.Sprintf("%s.%d", key, i), query, e.timeout, true)
+			}
 			or := &OblResult{Obl: o, Solver: r.Solver, Seconds: r.Seconds, Raw: r.Raw, Query: filepath.Join(e.workdir, sanitizeFile(fmt.Sprintf("%s.%d", key, i))+".smt2")}
 			switch {
 			case o.Cover && r.Status == "sat":
